@@ -1,3 +1,4 @@
+\* crash part with a start-up reconciliation of the UTXO store (ReconcileUtxo), two crashes anywhere: every invariant must hold
 SPECIFICATION Spec
 CONSTANTS
   MaxH = 2
